@@ -79,6 +79,11 @@ def cases(rng, tier):
                     t.append({"n": c["n"], "w": c["w"], "v": [[rng.randint(100, 199) for _ in range(max(c["w"], 1))] for _ in range(m)]})
                 tabs.append(t)
             p["tables"] = tabs
+            if k >= 2 and rng.random() < 0.5:
+                # the same field with different dtypes in the operands (numpy promotes): a narrower / integer first operand,
+                # later operands with values it cannot represent
+                p["dts"] = [rng.choice(["int32", "int64", "float64", "uint8"]) for _ in tabs]
+                p["offs"] = [{"int32": 0, "uint8": -100, "int64": rng.choice([0, 2 ** 33]), "float64": 0.5}[d] for d in p["dts"]]
         elif f == "varlen":
             mats = []
             for _ in range(rng.randint(1, 3)):
@@ -89,6 +94,7 @@ def cases(rng, tier):
             p["cols"] = _gen_cols(rng, nf, n)
             if f == "getitem":
                 p["sel"] = ragidx.rowsel_random(n, rng)
+                p["variant"] = rng.randint(0, 1)
             if f == "astype":
                 names = [c["n"] for c in p["cols"]]
                 k = rng.randint(1, len(names))
@@ -149,6 +155,14 @@ def run_impl(p):
         if f == "varlen":
             objs = [VarLenArray(np.array(m["rows"], dtype=np.int64).reshape(len(m["rows"]), m["w"])) for m in p["mats"]]
             return np.concatenate(objs).array.tolist()
+        if f == "concat" and "dts" in p:
+            names = [c["n"] for c in p["tables"][0]]
+            objs = [_cls(names)(*[(_arr(c) + off).astype(dt) for c in t]) for t, dt, off in zip(p["tables"], p["dts"], p["offs"])]
+            res = np.concatenate(objs)
+            o = _table(res, names)
+            o["entries"] = canon([[[float(x) for x in cell] for cell in e] for e in _entries(res, names)])
+            o["dtypes"] = canon([str(np.asarray(getattr(res, n)).dtype) for n in names])
+            return o
         if f == "concat":
             objs = [_obj(t) for t in p["tables"]]
             return _table(np.concatenate(objs), [c["n"] for c in p["tables"][0]])
@@ -161,7 +175,7 @@ def run_impl(p):
             if sel["t"] == "int":
                 r = obj[sel["i"]]
                 return [np.atleast_1d(np.asarray(getattr(r, n))).tolist() for n in names]
-            idx = ragidx.py_rowsel(sel, 1)
+            idx = ragidx.py_rowsel(sel, p.get("variant", 1))      # lists and masks as Python lists (even) or ndarrays (odd)
             if sel["t"] == "all":
                 idx = slice(None)
             return _table(obj[idx], names)
@@ -193,6 +207,14 @@ def oracle(p):
             for r in m["rows"]:
                 rows.append([0] * (w - m["w"]) + list(r))
         return canon(rows)
+    if f == "concat" and "dts" in p:
+        names = [c["n"] for c in p["tables"][0]]
+        rdt = np.result_type(*p["dts"])
+        ents = []
+        for t, dt, off in zip(p["tables"], p["dts"], p["offs"]):
+            for e in _raw_entries(t):
+                ents.append([[float(np.array([x + off]).astype(dt).astype(rdt)[0]) for x in cell] for cell in e])
+        return {"k": "obs", "entries": canon(ents), "len": canon(len(ents)), "names": canon(names), "dtypes": canon([str(rdt)] * len(names))}
     if f == "concat":
         ents = [e for t in p["tables"] for e in _raw_entries(t)]
         names = [c["n"] for c in p["tables"][0]]
@@ -233,6 +255,8 @@ def lean_request(p):
         return [{"n": c["n"], "v": c["v"]} for c in cs]
     if f == "varlen":
         return {"op": "DC.run", "f": "varlen", "mats": p["mats"]}
+    if f == "concat" and "dts" in p:
+        return None
     if f == "concat":
         return {"op": "DC.run", "f": "concat", "tables": [cols(t) for t in p["tables"]]}
     if f == "eq":
